@@ -234,3 +234,31 @@ Fixpoint insert_map (m : fmap) (l : list fmap) : list fmap :=
   | x :: t => if end_pfn m <=? end_pfn x then m :: l else x :: insert_map m t
   end.
 Definition sort_maps (l : list fmap) : list fmap := fold_right insert_map [] l.
+
+(* diskdump.c, diskdump_read_page + pfn_to_pdpos: where the page descriptor of
+   [pfn] lives; [Val None] = (off_t)-1 = "Excluded page" (KDUMP_ERR_NODATA when
+   zero-fill is off).  sizeof(struct page_desc) = 24.  The same two lookups as
+   in [unmapped_step]; no tie of its own. *)
+Definition page_desc_lookup (maps : list fmap) (pfn : N) : res (option N) :=
+  match find_file_map maps 0 pfn with
+  | None => Val None
+  | Some mi =>
+      match nth_map maps mi with
+      | None => Oob
+      | Some m =>
+          if start_pfn m <=? pfn then
+            match find_region m pfn with
+            | Val (Some ri) =>
+                match nth_region (regions m) ri with
+                | None => Oob
+                | Some rgn => if g_pfn rgn <=? pfn
+                              then Val (Some (g_pos rgn + (pfn - g_pfn rgn) * 24))
+                              else Val None
+                end
+            | Val None => Val None
+            | Oob => Oob
+            | Fuel => Fuel
+            end
+          else Val None
+      end
+  end.
